@@ -199,17 +199,21 @@ def run(ck):
                 for x in range(n):
                     P[perm[x] * dim:(perm[x] + 1) * dim, :] = R @ Phi[x * dim:(x + 1) * dim, :]
                 emax = max(emax, np.abs(P - Phi).max())
-            if err("equivariant", emax) > TOL:
-                violation("equivariant", "vector stars not invariant under the space group: %.3g" % emax, info)
+            equiv_err = emax
             # -- count = sum of fixed dimensions of the stabilisers (certified in Coq)
             total = 0
             perstar = []
+            fixdim = {}
+            twofold = set()
             for k, st in enumerate(stars):
                 rep = sts[st[0]]
                 stab = [gi for gi in ops if sc.gact(gi, rep) == rep]
                 mats = sorted(set(gi[0] for gi in stab))
                 m3, basis, wit = fixed_certificate(mats)
                 m = m3 - (3 - dim)         # 2-D crystals are embedded with a trivially fixed third axis
+                for x in st: fixdim[x] = m
+                if dim == 3 and len(mats) == 2 and all(round(np.linalg.det(np.array(M_, dtype=float))) == 1 for M_ in mats):
+                    twofold.add(k)          # stabiliser = {1, two-fold rotation about the pair axis}
                 ckey = tuple(mats)
                 if ckey not in certseen:      # identical stabilisers are certified once
                     certseen.add(ckey)
@@ -218,9 +222,16 @@ def run(ck):
                 have = sum(1 for v in starof if starof[v] == k)
                 perstar.append((k, have, m))
                 total += m
-            if V.Nvstars != total or any(h != m for k, h, m in perstar):
-                violation("count", "number of vector stars %d differs from the total invariant dimension %d" % (V.Nvstars, total), info,
-                          {"per_star(have,expected)": [(k, h, m) for k, h, m in perstar if h != m][:6]})
+            wrong = [(k, h, m) for k, h, m in perstar if h != m]
+            # stable class of failing input: every miscounted star has a pure two-fold stabiliser (finding F2)
+            sfx = "-twofold-stabiliser" if wrong and all(k in twofold for k, h, m in wrong) else ""
+            if V.Nvstars != total or wrong:
+                violation("count" + sfx, "number of vector stars %d differs from the total invariant dimension %d" % (V.Nvstars, total),
+                          info, {"per_star(have,expected)": wrong[:6], "stars_with_twofold_stabiliser": sorted(twofold)[:10]})
+            if equiv_err > TOL:
+                violation("equivariant" + sfx, "vector stars not invariant under the space group: %.3g" % equiv_err, info)
+            else:
+                err("equivariant", equiv_err)
             # -- outer
             out = np.zeros((dim, dim, V.Nvstars, V.Nvstars))
             for i in range(V.Nvstars):
@@ -231,11 +242,11 @@ def run(ck):
                 violation("outer", "outer differs from the sum of outer products by %.3g" % maxerr["outer"], info)
             # -- expansions
             try:
-                bad = expansions(ck, crys, chem, S, V, Phi, sts, pos, jumps, ops, nsites, N, nr, err, zc)
+                bad = expansions(ck, crys, chem, S, V, Phi, sts, pos, jumps, ops, nsites, N, nr, err, zc, fixdim, bool(sfx))
             except Exception as e2:
                 violation("exception", "expansion raised %s: %s" % (type(e2).__name__, e2), info); bad = []
             for key, msg in bad:
-                violation(key, msg, info)
+                violation(key + sfx, msg, info)
             ck.case(key=(label, repr(crys), round(cut, 5), N), nontrivial=V.Nvstars >= 3,
                     kind="%dD-N%d-%s" % (dim, N, "polar" if any(sc.iszero(sts[p[0]]) for p in V.vecpos) else "nonpolar"),
                     sample={"crystal": label, "cutoff": cut, "N": N, "Nstates": n, "Nstars": len(stars), "Nvstars": V.Nvstars,
@@ -260,7 +271,7 @@ def run(ck):
     crystalStars.zeroclean = orig_zeroclean
 
 
-def expansions(ck, crys, chem, S, V, Phi, sts, pos, jumps, ops, nsites, N, nr, err, zc):
+def expansions(ck, crys, chem, S, V, Phi, sts, pos, jumps, ops, nsites, N, nr, err, zc, fixdim, known_bad_basis):
     """GF / rate / bias / bare expansions contracted with random rates vs Phi^T A Phi, A assembled by brute force"""
     bad = []
     dim = crys.dim
@@ -333,7 +344,7 @@ def expansions(ck, crys, chem, S, V, Phi, sts, pos, jumps, ops, nsites, N, nr, e
         K = len(jn_)
         w1, e1, b1 = nr.uniform(0.5, 2, K), nr.uniform(0.5, 2, K), nr.uniform(0.5, 2, K)
         w0, e0, b0 = nr.uniform(0.5, 2, ntypes), nr.uniform(0.5, 2, ntypes), nr.uniform(0.5, 2, ntypes)
-        W1 = np.zeros((n, n)); E1 = np.zeros(n); W0 = np.zeros((n, n)); E0 = np.zeros(n)
+        W1 = np.zeros((n, n)); E1 = np.zeros(n); W0 = np.zeros((n, n)); E0 = np.zeros(n); E0bare = np.zeros(n)
         B1 = np.zeros((n, dim)); B0 = np.zeros((n, dim))
         D1 = np.zeros((dim, dim)); D0 = np.zeros((dim, dim))
         for (x, y), (R, t) in valid.items():
@@ -353,7 +364,12 @@ def expansions(ck, crys, chem, S, V, Phi, sts, pos, jumps, ops, nsites, N, nr, e
                 o = pos.get((sts[x][0], sts[x][0], sc.Z3))
                 if o is not None:
                     W0[x, o] += w0[t]; W0[o, x] += w0[t]
-                    E0[o] -= e0[t]
+                    # CONVENTION of the implementation (not derivable from the property text, see design_notes/C25.md O1):
+                    # the origin state's entry is  - sum over exchange states x of dimFix(Stab x) * rate, where the bare
+                    # escape would be  - sum of rates.  The bare value would make 1 + G0.delta_omega singular (the origin
+                    # state is cut off completely); any other value is a regularisation that Lij does not depend on.
+                    E0[o] -= e0[t] * fixdim[x]
+                    E0bare[o] -= e0[t]
                     B1[o] += -b1[k] * dx; B0[o] += -b0[t] * dx
         r0, r0e, r1, r1e = V.rateexpansions(jn_, jt_, omega2=om2)
         bb0, bb1 = V.biasexpansions(jn_, jt_, omega2=om2)
@@ -380,8 +396,13 @@ def expansions(ck, crys, chem, S, V, Phi, sts, pos, jumps, ops, nsites, N, nr, e
                 mask = np.logical_or.outer(osrows, osrows)
                 eo = err("om2-rate0escape-originstate", diff[mask].max())
                 if eo > TOL:
-                    bad.append(("om2-rate0escape-originstate", "omega2 rate0escape: escape of the origin states differs from the "
-                                "projection of the directly assembled bare escape (one per exchange transition) by %.3g" % eo))
+                    bad.append(("om2-rate0escape-originstate", "omega2 rate0escape: entry of the origin states differs from the "
+                                "projection of -sum dimFix(Stab x) rate(x) by %.3g" % eo))
+                bare = Phi.T @ blockI(n, dim, np.diag(E0bare)) @ Phi
+                gap = float((np.diag(bare)[osrows] - np.diag(got)[osrows]).min())
+                err("om2-originstate-regularisation-gap(min)", -gap)      # recorded only; > 0 means not singular
+                ck.extra["origin_state_cases"] = ck.extra.get("origin_state_cases", 0) + 1
+                if gap <= 1e-10: ck.extra["origin_state_cases_at_bare_value"] = ck.extra.get("origin_state_cases_at_bare_value", 0) + 1
                 diff = diff[~mask]
                 if diff.size == 0: continue
             e = err("%s-%s" % (name, what), diff.max())
